@@ -8,6 +8,11 @@
 //!  * `conc`    2–4 scripted threads committing workspaces under the deterministic scheduler with the
 //!              yield points inside `TensorChain::commit`.
 //!  * `replica` one block sequence applied to two fresh `TensorStateMachine`s.
+//!
+//! The oracles re-implement the documented constructions (header hash, canonical signing bytes,
+//! transaction Merkle tree, state root, per-transaction store effect) in `model.rs`; nothing of
+//! the product's hashing or apply code is called by an oracle except ed25519 verification of the
+//! harness-built message under the node's public key.
 
 mod conc;
 mod model;
@@ -22,16 +27,21 @@ fn main() {
     main_for(PropDef {
         id: "C16",
         level: "exploration",
-        rule: "seq: non-trivial = a successful non-empty commit of a workspace whose written keys intersect the keys committed by another workspace after this one was begun.",
+        rule: "seq (<=30 ops, <=3 open workspaces, auto-merge on/off, max_txs 1000/5/2, node key in the registry): non-trivial = a successful non-empty commit of a workspace whose written keys intersect the keys committed by another workspace after this one was begun. tamper (chain of 1-5 commits, one rewrite of a stored record: header field / transaction list / one bit / removal / swap / copy / forged block): non-trivial = the rewritten block is not the tip. conc (2-4 threads x 1-2 workspaces, shared keys k0-k2 and private keys, schedule of <=40 choices): non-trivial = two commits were past their pre-image point at the same time before either had appended (from the scheduler trace). replica (1-6 blocks on two state machines): non-trivial = a later block touches a key written by an earlier block. distinct = distinct generated case (hash of its JSON).",
         assumptions: vec![
-            "generated transactions use the key alphabet k0..k4 / emb:k* / node:n* / edge:n* / table:t*; keys of the chain's own bookkeeping (chain:*, node:<id>, edge:<id>, _graph_idx:*) and _cache:* are never written by a generated transaction",
-            "auto-merge runs with a one-hour merge window so that candidate selection does not depend on the wall clock",
+            "generated transactions use the key alphabet k* / emb:k* / node:n* / edge:n* / table:t*; keys of the chain's own bookkeeping (chain:*, node:<id>, edge:<id>, _graph_idx:*) and _cache:* are never written by a generated transaction",
+            "auto-merge runs with a one-hour merge window so that candidate selection does not depend on the wall clock; the oracle accepts any order of merged workspaces inside a block and decides 'merged' from the workspace state",
+            "a commit may legitimately fail with a conflict when it and another open workspace carry delta embeddings, and with max_txs_per_block when merging makes the block too large; every other failure of an active workspace's commit is reported",
+            "tamper domain = the serialized block inside the stored record (field _block); the index fields _hash/_height/_timestamp of the record, the validator signature list Block.signatures and the signature field of the (unsigned) genesis block are not covered by the statement and are excluded (counted as 'excluded:*'); chains have height >= 1 (verify() on a genesis-only chain checks nothing)",
+            "replica separate mode: chain store and data store of a replica are distinct stores (TensorStateMachine::new takes them separately), replica b is seeded with replica a's genesis record because a genesis block carries a wall-clock timestamp",
+            "replica wired mode sleeps 3 ms between the leader's commits and the replay so that the millisecond wall clock differs; if state roots did not depend on the clock this would be irrelevant",
+            "conc: scheduler grace period 300 ms; no lock is held across the two yield points on the pinned tree, so no blocked events occur there",
         ],
         parts: vec![
-            PropPart::new("seq", 300, 10_000, seq::strategy, seq::check).boxed(),
-            PropPart::new("tamper", 300, 20_000, tamper::strategy, tamper::check).boxed(),
-            PropPart::new("conc", 200, 10_000, conc::strategy, conc::check).boxed(),
-            PropPart::new("replica", 100, 5_000, replica::strategy, replica::check).boxed(),
+            PropPart::new("seq", 10_000, 400_000, seq::strategy, seq::check).boxed(),
+            PropPart::new("tamper", 12_000, 600_000, tamper::strategy, tamper::check).boxed(),
+            PropPart::new("conc", 3_000, 80_000, conc::strategy, conc::check).boxed(),
+            PropPart::new("replica", 3_000, 150_000, replica::strategy, replica::check).boxed(),
         ],
         children: vec![],
     });
